@@ -316,6 +316,19 @@ func c15(c *Ctx) {
 			})
 			c.check(found, r, lastSeg(p.fn)+":reads:"+g, c.pos(f.Pos()), "attribute is converted", lastSeg(p.fn)+" no longer converts attribute "+g)
 		}
+		// nothing is converted to "no metadata" except no metadata: a nil result is returned only on the md == nil edge
+		// (metadata is covered by the entry digest: a non-empty attribute set that travels as nil changes Eh and Alh)
+		isNilArg := whenCond(true, func(a string) bool { return strings.Contains(a, "param:") && strings.Contains(a, "nil") && strings.Contains(a, " == ") })
+		q := &pathQ{fn: f, fromEntry: true, to: func(in ssa.Instruction) bool {
+			rt, ok := in.(*ssa.Return)
+			if !ok || len(rt.Results) != 1 {
+				return false
+			}
+			k, isConst := rt.Results[0].(*ssa.Const)
+			return isConst && k.IsNil()
+		}, barrier: isNilArg}
+		w := q.bypass()
+		c.check(w == nil, r, lastSeg(p.fn)+":nil-only-for-nil", c.pos(f.Pos()), "nil is returned only for a nil argument", lastSeg(p.fn)+" can turn non-nil metadata into nil: "+c.witnessStr(w))
 	}
 }
 
